@@ -178,7 +178,7 @@ def mk_enum(s_edt):
     s_dt = one(s_edt).S_DT[17]()
     enums = list()
     kwlist =['False', 'None', 'True'] + keyword.kwlist
-    for enum in many(s_edt).S_ENUM[27]():
+    for enum in xtuml.sort_reflexive(many(s_edt).S_ENUM[27](), 56, 'succeeds'):
         if enum.Name in kwlist:
             enums.append(enum.Name + '_')
         else:
